@@ -48,6 +48,47 @@ theorem compileList_eq {α β : Type} (run : α → β) (next : Nat) (tasks : Li
   have h2 := congrArg (List.map (Option.map run)) h
   simpa [List.map_map, Function.comp_def] using h2
 
+/-! ### list comprehensions that may raise -/
+
+theorem mapOpt_length {α β : Type} (f : α → Option β) :
+    ∀ (l : List α) (l' : List β), mapOpt f l = some l' → l'.length = l.length := by
+  intro l
+  induction l with
+  | nil => intro l' h; simp [mapOpt] at h; subst h; rfl
+  | cons x xs ih =>
+    intro l' h
+    simp only [mapOpt] at h
+    cases hx : f x with
+    | none => simp [hx] at h
+    | some y =>
+      cases hxs : mapOpt f xs with
+      | none => simp [hx, hxs] at h
+      | some ys =>
+        simp only [hx, hxs, Option.some.injEq] at h
+        subst h
+        simp [ih ys hxs]
+
+theorem mapOpt_get {α β : Type} (f : α → Option β) :
+    ∀ (l : List α) (l' : List β), mapOpt f l = some l' →
+      ∀ i : Nat, l'[i]? = (l[i]?).bind f := by
+  intro l
+  induction l with
+  | nil => intro l' h i; simp [mapOpt] at h; subst h; simp
+  | cons x xs ih =>
+    intro l' h i
+    simp only [mapOpt] at h
+    cases hx : f x with
+    | none => simp [hx] at h
+    | some y =>
+      cases hxs : mapOpt f xs with
+      | none => simp [hx, hxs] at h
+      | some ys =>
+        simp only [hx, hxs, Option.some.injEq] at h
+        subst h
+        cases i with
+        | zero => simp [hx]
+        | succ i => simpa using ih ys hxs i
+
 /-! ### MachineModel.is_compatible -/
 
 /-- The placement can be indexed wherever the code indexes it. -/
